@@ -28,7 +28,8 @@ finally:
 print(json.dumps(meta, indent=1)); print("CONFIRMED" if ok else "NOT CONFIRMED")
 if not ok:
     sys.exit(1)
-out = "/verif/benign/%s-%s" % (prop, n)
+tag = sys.argv[sys.argv.index("--tag") + 1] if "--tag" in sys.argv else ""
+out = "/verif/benign/%s-%s%s" % (prop, tag, n)
 os.makedirs(out, exist_ok=True)
 for f in ("patch.diff", "equiv.py", "README.md"):
     shutil.copy(os.path.join(d, f), out)
